@@ -202,6 +202,32 @@ static void render_paths(const std::basic_string<C> &p) {
         if (!between(out, seg)) vf::fail("c03:loop-item:sentinels-lost", "payload=%s", vf::show(p.data(), p.size()).c_str());
         else check_escaped(p, seg, "loop-item");
     }
+    // (a2) the same positions reached through pointer-to-value members (SetPointerToValue / AddPointerToValue)
+    {
+        Value<C> target{String<C>((const C *)p.data(), SizeT(p.size()))};
+        Value<C> v;
+        v[W<C>("x").c_str()].SetPointerToValue(&target);
+        S out = render(one + W<C>("{var:x}") + two, v);
+        if (!between(out, seg)) vf::fail("c03:pointer-var:sentinels-lost", "payload=%s", vf::show(p.data(), p.size()).c_str());
+        else check_escaped(p, seg, "pointer-var");
+        out = render(one + W<C>("{raw:x}") + two, v);
+        if (!between(out, seg) || seg != p) vf::fail("c03:pointer-raw:not-verbatim", "payload=%s output=%s", vf::show(p.data(), p.size()).c_str(), vf::show(out.data(), out.size()).c_str());
+        out = render(one + W<C>("{if case=\"1\" true=\"{var:x}\" false=\"n\"}") + two, v);
+        if (!between(out, seg)) vf::fail("c03:pointer-inline-if:sentinels-lost", "payload=%s", vf::show(p.data(), p.size()).c_str());
+        else check_escaped(p, seg, "pointer-inline-if");
+        Value<C> arr;
+        arr.AddPointerToValue(&target);
+        out = render(one + W<C>("<loop value=\"v\">{var:v}</loop>") + two, arr);
+        if (!between(out, seg)) vf::fail("c03:pointer-loop-item:sentinels-lost", "payload=%s", vf::show(p.data(), p.size()).c_str());
+        else check_escaped(p, seg, "pointer-loop-item");
+        Value<C> sv;
+        sv[W<C>("ph2").c_str()] = String<C>(W<C>("{0}").c_str());
+        sv[W<C>("x").c_str()].SetPointerToValue(&target);
+        out = render(one + W<C>("{svar:ph2, {var:x}}") + two, sv);
+        if (!between(out, seg)) vf::fail("c03:pointer-svar-subtag:sentinels-lost", "payload=%s", vf::show(p.data(), p.size()).c_str());
+        else check_escaped(p, seg, "pointer-svar-subtag");
+        vf::count("pointer_renders", 5);
+    }
     // (b) loop key of an object loop: the member is unprintable (an empty array), so {var:v} prints the key
     {
         Value<C> v;
@@ -233,6 +259,9 @@ static void render_paths(const std::basic_string<C> &p) {
     {
         bool ok = !p.empty() && p.size() < 200;
         for (C ch : p) ok = ok && ch != C('}') && ch != C('{') && ch != C('[') && ch != C(']') && ch != C(1) && ch != C(2) && ch != C(0);
+        // ... nor contain the opening of another tag: "{var:x<if y}" is not a variable tag in the engine's grammar (the next
+        // pattern after "{var:" must be the closing brace), it is literal template text and literal text is never escaped
+        for (const char *pat : {"<loop", "<if", "<else", "</loop", "</if"}) ok = ok && p.find(W<C>(pat)) == S::npos;
         if (ok) {
             Value<C> v;
             v[W<C>("other").c_str()] = 1;
